@@ -24,6 +24,7 @@ import (
 type c16Case struct {
 	Parser string // results | targets-http | targets-json | buckets
 	Input  []byte
+	Reuse  bool // results: decode every record into one reused Result instead of a fresh one
 }
 
 var c16Dir string
@@ -77,7 +78,7 @@ func runC16(c c16Case) error {
 var c16Hangs = map[string]error{}
 
 func evalC16(c c16Case) (pb vgen.ParserBudget, err error) {
-	key := c.Parser + "\x00" + string(c.Input)
+	key := fmt.Sprint(c.Parser, c.Reuse, "\x00", string(c.Input))
 	if e, ok := c16Hangs[key]; ok {
 		return pb, e
 	}
@@ -106,9 +107,14 @@ func evalC16(c c16Case) (pb vgen.ParserBudget, err error) {
 				if dec == nil {
 					return
 				}
-				for {
-					var r vegeta.Result
-					if err := dec.Decode(&r); err != nil {
+				var reused vegeta.Result
+				for n := 0; ; n++ {
+					var fresh vegeta.Result
+					r := &fresh
+					if c.Reuse {
+						r = &reused // callers may also decode every record into the same Result
+					}
+					if err := dec.Decode(r); err != nil {
 						pb.Errored = true
 						return
 					}
@@ -241,6 +247,7 @@ func TestC16Parsers(t *testing.T) {
 			doc := c16ValidDoc(t, c.Parser)
 			c.Input = vgen.Mutate(t, "mut", doc, c16ValidDoc(t, c.Parser))
 		}
+		c.Reuse = c.Parser == "results" && rapid.Bool().Draw(t, "reuse")
 		var (
 			pb  vgen.ParserBudget
 			err error
@@ -273,7 +280,7 @@ func TestC16Corpus(t *testing.T) {
 			if err != nil {
 				continue
 			}
-			c := c16Case{Parser: parser, Input: in}
+			c := c16Case{Parser: parser, Input: in, Reuse: strings.Contains(f, "reuse")}
 			var pb vgen.ParserBudget
 			var cerr error
 			if perr := vh.Try(func() { pb, cerr = evalC16(c) }); perr != nil {
